@@ -27,6 +27,7 @@ func TestSim(t *testing.T) {
 		{Name: "measure-twins", Weight: 3, Run: runMeasure},
 		{Name: "stream-twins", Weight: 2, Run: runStream},
 		{Name: "cluster-stream-twins", Weight: 1, Run: runStreamCluster},
+		{Name: "trace-twins", Weight: 2, Run: runTrace},
 	})
 }
 
